@@ -1598,6 +1598,15 @@ static Node *asm_stmt(Token **rest, Token *tok) {
   return node;
 }
 
+// A sub-statement of a selection or iteration statement is a block of
+// its own, even if it is not a compound statement.
+static Node *block_stmt(Token **rest, Token *tok) {
+  enter_scope();
+  Node *node = stmt(rest, tok);
+  leave_scope();
+  return node;
+}
+
 // stmt = "return" expr? ";"
 //      | "if" "(" expr ")" stmt ("else" stmt)?
 //      | "switch" "(" expr ")" stmt
@@ -1634,11 +1643,13 @@ static Node *stmt(Token **rest, Token *tok) {
   if (equal(tok, "if")) {
     Node *node = new_node(ND_IF, tok);
     tok = skip(tok->next, "(");
+    enter_scope();
     node->cond = expr(&tok, tok);
     tok = skip(tok, ")");
-    node->then = stmt(&tok, tok);
+    node->then = block_stmt(&tok, tok);
     if (equal(tok, "else"))
-      node->els = stmt(&tok, tok->next);
+      node->els = block_stmt(&tok, tok->next);
+    leave_scope();
     *rest = tok;
     return node;
   }
@@ -1646,6 +1657,7 @@ static Node *stmt(Token **rest, Token *tok) {
   if (equal(tok, "switch")) {
     Node *node = new_node(ND_SWITCH, tok);
     tok = skip(tok->next, "(");
+    enter_scope();
     node->cond = expr(&tok, tok);
     add_type(node->cond);
     tok = skip(tok, ")");
@@ -1656,8 +1668,9 @@ static Node *stmt(Token **rest, Token *tok) {
     char *brk = brk_label;
     brk_label = node->brk_label = new_unique_name();
 
-    node->then = stmt(rest, tok);
+    node->then = block_stmt(rest, tok);
 
+    leave_scope();
     current_switch = sw;
     brk_label = brk;
     return node;
@@ -1737,7 +1750,7 @@ static Node *stmt(Token **rest, Token *tok) {
     brk_label = node->brk_label = new_unique_name();
     cont_label = node->cont_label = new_unique_name();
 
-    node->then = stmt(rest, tok);
+    node->then = block_stmt(rest, tok);
 
     leave_scope();
     brk_label = brk;
@@ -1748,6 +1761,7 @@ static Node *stmt(Token **rest, Token *tok) {
   if (equal(tok, "while")) {
     Node *node = new_node(ND_FOR, tok);
     tok = skip(tok->next, "(");
+    enter_scope();
     node->cond = expr(&tok, tok);
     tok = skip(tok, ")");
 
@@ -1756,8 +1770,9 @@ static Node *stmt(Token **rest, Token *tok) {
     brk_label = node->brk_label = new_unique_name();
     cont_label = node->cont_label = new_unique_name();
 
-    node->then = stmt(rest, tok);
+    node->then = block_stmt(rest, tok);
 
+    leave_scope();
     brk_label = brk;
     cont_label = cont;
     return node;
@@ -1765,13 +1780,14 @@ static Node *stmt(Token **rest, Token *tok) {
 
   if (equal(tok, "do")) {
     Node *node = new_node(ND_DO, tok);
+    enter_scope();
 
     char *brk = brk_label;
     char *cont = cont_label;
     brk_label = node->brk_label = new_unique_name();
     cont_label = node->cont_label = new_unique_name();
 
-    node->then = stmt(&tok, tok->next);
+    node->then = block_stmt(&tok, tok->next);
 
     brk_label = brk;
     cont_label = cont;
@@ -1780,6 +1796,7 @@ static Node *stmt(Token **rest, Token *tok) {
     tok = skip(tok, "(");
     node->cond = expr(&tok, tok);
     tok = skip(tok, ")");
+    leave_scope();
     *rest = skip(tok, ";");
     return node;
   }
